@@ -18,6 +18,7 @@ from vyper.codegen.core import (
 from vyper.codegen.ir_node import Encoding, IRnode
 from vyper.evm.address_space import MEMORY
 from vyper.exceptions import TypeCheckFailure
+from vyper.semantics.types.shortcuts import UINT256_T
 from vyper.semantics.types import InterfaceT, TupleT
 from vyper.semantics.types.function import StateMutability
 
@@ -72,7 +73,17 @@ def _pack_arguments(fn_type, args, context, return_t=None):
     if len(args) != 0:
         encode_buf = add_ofst(buf, 32)
         encode_buflen = buflen - 32
-        pack_args.append(abi_encode(encode_buf, args_as_tuple, context, bufsz=encode_buflen))
+        if args_abi_t.is_dynamic():
+            # send exactly the encoded bytes, not the static size bound (the tail of the
+            # buffer beyond the encoded length holds stale memory)
+            len_slot = context.new_internal_variable(UINT256_T)
+            encoded_len = abi_encode(
+                encode_buf, args_as_tuple, context, bufsz=encode_buflen, returns_len=True
+            )
+            pack_args.append(["mstore", len_slot, ["add", 4, encoded_len]])
+            args_len = IRnode.from_list(["mload", len_slot], typ=UINT256_T)
+        else:
+            pack_args.append(abi_encode(encode_buf, args_as_tuple, context, bufsz=encode_buflen))
 
     return buf, pack_args, args_ofst, args_len
 
